@@ -629,7 +629,10 @@ func (v *visitor) ConditionalNode(node *ast.ConditionalNode) reflect.Type {
 		return v.error(node.Cond, "non-bool expression (type %v) used as condition", c)
 	}
 
-	t1 := v.visit(node.Exp1)
+	t1 := c
+	if node.Cond != node.Exp1 { // not `a ?: b`, whose first arm is the condition itself
+		t1 = v.visit(node.Exp1)
+	}
 	t2 := v.visit(node.Exp2)
 
 	// With a nil arm the result is the other arm's type only if nil is a
